@@ -2,6 +2,14 @@
 FIELD_TB = ["section hypothesis field_theory (theorems hold for every field; the executable instance is Z mod p, Base/Zp.v)"]
 
 PROPS = {
+    "C07": {
+        "cmd": "c07",
+        "timeout": 600,
+        "trusted_base": ["Go's reflect package and encoding/json are not modelled (reflect.StructOf builds the generated circuit types)",
+                         "tag strings are parsed by the harness generator with the rules read in frontend/schema/tags.go; the model works on parsed tags",
+                         "JSON round trip is differential only (static types)"],
+        "assumptions": ["circuit and assignment have the same shape (same slice lengths)"],
+    },
     "C04": {
         "cmd": "c04",
         "timeout": 1200,
